@@ -101,29 +101,85 @@ def rules(fx, rep):
         body = fx.body(path)
         where = fx.fn(path)['span']
 
+        # ---- the addition chain, located by role and decided by contract: a free function (&mut F, &F) reachable from the
+        # map whose every path leaves base^e in its first argument -- on the general path e must be the RFC exponent; a
+        # path taken only for base = 0 or base = 1 may return any positive power of the base (0^k = 0, 1^k = 1)
+        import inline as INL
+        import roles as ROLES
+        import tt as TT
+
+        def inline_plain(p):
+            f = fx.fn(p)
+            return f is not None and not f.get('impl_self_ty') and p != helper and f['kind'] == 'Fn'
+        cand_fns = []
+        for q_ in sorted(ROLES.reach(fx, path, lambda c_, f_, t_: inline_plain(c_.get('res') or c_.get('def')))):
+            bq = fx.body(q_)
+            f_ = fx.fn(q_)
+            if bq is None or bq.arg_count != 2 or not inline_plain(q_):
+                continue
+            if not (bq.local_ty(1).startswith('&mut') and bq.local_ty(2).startswith('&') and not bq.local_ty(2).startswith('&mut')):
+                continue
+            cs_ = [callee(t_) or {} for _, t_ in bq.calls()]
+            if sum(1 for c_ in cs_ if c_.get('trait') == 'ff::Field' and c_.get('name') in ('square', 'mul_assign')) < 16:
+                continue
+            cand_fns.append(q_)
+        chain_fns = set()
+        X = at('x')
+        kz, k1 = ('is_zero', TT.lin_key(X)), TT.eq_key(X, Lin())
+        for cf in cand_fns:
+            rep.fn(cf)
+            Ic = exp.Interp(fx, 'mul', inline=lambda p_: (inline_plain(p_) and p_ not in cand_fns) or INL.is_private_helper(fx, p_))
+            Ic.fork_inlined = True
+            why = None
+            n_general = 0
+            try:
+                cres = Ic.run(cf, [('byref', exp.TOP), ('byref', X)])
+                for pth_, ret_, outs_ in cres:
+                    if isinstance(ret_, tuple) and ret_ and ret_[0] == 'diverges':
+                        why = 'the chain has a panic edge'
+                        break
+                    v = outs_.get(1)
+                    lits = TT.path_literals(pth_)
+                    if [l for l in lits if l[0] not in (kz, k1)]:
+                        why = 'branches on %r' % ([l[2] for l in lits if l[0] not in (kz, k1)][0],)
+                        break
+                    special = any(l[1] for l in lits)
+                    if not isinstance(v, Lin) or not v.atoms() <= {'x'}:
+                        why = 'result is %r, not a power of the base' % (v,)
+                        break
+                    if special:
+                        if v.coeff('x') <= 0 and any(l[0] == kz and l[1] for l in lits):
+                            why = 'returns base^%d for base = 0' % v.coeff('x')
+                            break
+                        continue
+                    n_general += 1
+                    if v.t != {'x': e_chain}:
+                        why = 'chain computes %r' % (v,)
+                        break
+                if why is None and not n_general:
+                    why = 'no general path'
+            except (exp.NotDerivable, exp.Budget) as e:
+                why = 'chain not derivable: %s' % e
+            rep.check(why is None, 'EXP', '%s:chain-exponent' % g,
+                      ('addition chain raises to (q-3)/4' if g == 'G1' else 'addition chain raises to (q^2-9)/16') + ' on its general path; special paths for base 0 / 1 return a positive power of the base',
+                      why or '', fx.fn(cf)['span'])
+            if why is None:
+                chain_fns.add(cf)
+
         def tr(I2, fr, t, c, pth):
-            if (c.get('res') or c['def']) == helper:
+            r_ = c.get('res') or c['def']
+            if r_ == helper:
                 fr.storev(t['dest'], exp.Agg([at(n) for n in HELP_NAMES]))
                 return True
+            if r_ in chain_fns and len(t['args']) == 2:
+                v = fr.deref_operand(t['args'][1])
+                if isinstance(v, Lin):
+                    fr.store_through(t['args'][0], v.scale(e_chain))
+                    return True
             return False
-        chain_fns = set()
-
-        def is_power_chain(p):
-            # an addition chain: a branch-free sequence of field squarings / multiplications on its two parameters
-            bq = fx.body(p)
-            if bq is None or bq.arg_count != 2:
-                return False
-            cs_ = [callee(t_) or {} for _, t_ in bq.calls()]
-            plumbing = ('std::iter::IntoIterator', 'std::iter::Iterator', 'std::clone::Clone')
-            field = [c_ for c_ in cs_ if c_.get('trait') not in plumbing]
-            return bool(field) and all(c_.get('trait') == 'ff::Field' and c_.get('name') in ('square', 'mul_assign') for c_ in field)
 
         def inline(p):
-            f = fx.fn(p)
-            ok = f is not None and not f.get('impl_self_ty') and p != helper and f['kind'] == 'Fn'
-            if ok and is_power_chain(p):
-                chain_fns.add(p)
-            return ok
+            return inline_plain(p) and p not in chain_fns
         I2 = exp.Interp(fx, 'mul', inline=inline, extra_transfer=tr)
         I2.fork_inlined = True
         try:
@@ -132,18 +188,7 @@ def rules(fx, rep):
             rep.fail('EXP', '%s:derivable' % g, 'map not derivable: %s at %s' % (e, getattr(e, 'where', None)), where)
             continue
         rep.sites(I2.call_sites)
-        for cf in chain_fns:
-            rep.fn(cf)
-            Ic = exp.Interp(fx, 'mul', inline=inline)
-            try:
-                cres = Ic.run(cf, [('byref', exp.TOP), ('byref', at('x'))])
-                v = cres[0][2].get(1) if len(cres) == 1 else None
-                rep.check(isinstance(v, Lin) and v.t == {'x': e_chain}, 'EXP', '%s:chain-exponent' % g,
-                          'addition chain raises to (q-3)/4' if g == 'G1' else 'addition chain raises to (q^2-9)/16',
-                          'chain computes %r' % (v,), fx.fn(cf)['span'])
-            except (exp.NotDerivable, exp.Budget) as e:
-                rep.fail('EXP', '%s:chain-exponent' % g, 'chain not derivable: %s' % e, fx.fn(cf)['span'])
-        rep.check(len(chain_fns) == 1, 'WIRE', '%s:one-chain' % g, 'one addition-chain helper', 'chain helpers: %s' % sorted(chain_fns), where)
+        rep.check(len(chain_fns) == 1, 'WIRE', '%s:one-chain' % g, 'one addition-chain helper', 'chain helpers verified: %s (candidates %s)' % (sorted(chain_fns), cand_fns), where)
 
         ntables = 1 if g == 'G1' else 4
         res = merge_explicit_sign_fix(res)
